@@ -414,7 +414,12 @@ def _distance_with_params_ndim(t):
 
 
 def _distance_c_with_params(t):
-    return dtw_cc.distance(t[0], t[1], **t[2])
+    # The C code reads buffers of doubles with unit stride (as the other C routes guarantee)
+    s1, s2 = t[0], t[1]
+    if np is not None:
+        s1 = np.ascontiguousarray(s1, dtype=np.double)
+        s2 = np.ascontiguousarray(s2, dtype=np.double)
+    return dtw_cc.distance(s1, s2, **t[2])
 
 
 def _distance_c_with_params_ndim(t):
